@@ -6,6 +6,8 @@
 #include <unistd.h>
 #include <algorithm>
 #include <memory>
+#include <unordered_map>
+#include <set>
 #include "../ref/prims.h"
 
 const char *const op_names[OP_NKINDS] = { "SUBMIT", "GET_COMPLETED", "FLUSH", "FLUSH_ALL", "QUEUE_SIZE", "GET_NEXT",
@@ -185,6 +187,8 @@ oracle_property(const std::string &o, const JobSpec *s)
 }
 
 // ------------------------------------------------------------------ interpreter state
+void mat_raw_keys(uint64_t key_seed, uint8_t rawc[64], uint8_t rawa[160]);
+
 namespace {
 
 struct InFlight {
@@ -210,6 +214,7 @@ struct Task {
         bool wrapped = false;
         int last_slot = -1;
         int next_id = 1;
+        struct InFlight *held = nullptr; // slot taken with get_next_job and filled, not yet submitted
         IMB_JOB *slots[IMB_MAX_BURST_SIZE + 8];
 };
 
@@ -535,6 +540,7 @@ check_descriptor(Ctx &c, const InFlight &f)
         }
 }
 
+void needles_from_job(const MatJob &mj, bool at_submit);
 void sgl_stream_done(Ctx &c, Task &t, int stream);
 void sgl_oneshot_check(Ctx &c, Task &t, const MatJob &mj, int status);
 
@@ -623,6 +629,8 @@ handback(Ctx &c, Task &t, IMB_JOB *r, const char *via)
 
         JobOut out;
         mat_collect(f->mj, st, out);
+        if ((c.plan->oracles & OR_SCRUB) && completed)
+                needles_from_job(f->mj, false);
         if (c.opts->want_suites && completed)
                 c.res->suites[suite_str({ f->mj.spec.cipher, f->mj.spec.dir, f->mj.spec.hash, f->mj.spec.order,
                                           f->mj.spec.key_len })]++;
@@ -714,6 +722,11 @@ void
 drop_all(Ctx &c, Task &t)
 {
         (void) c;
+        if (t.held) {
+                mat_release(t.held->mj);
+                delete t.held;
+                t.held = nullptr;
+        }
         for (auto *f : t.fifo) {
                 mat_release(f->mj);
                 delete f;
@@ -746,6 +759,8 @@ prepare_job(Ctx &c, Task &t, const JobSpec &spec, IMB_JOB *slot, bool burst)
                 }
         }
         f->snap = *slot;
+        if ((c.plan->oracles & OR_SCRUB) && !spec.viol)
+                needles_from_job(f->mj, true);
         // coverage counters
         for (int i = 0; i < O_NOBJ; i++)
                 if (f->mj.obj[i].valid()) {
@@ -777,29 +792,38 @@ note_ring(Ctx &c, Task &t, int idx)
 void
 op_submit(Ctx &c, Task &t, const Op &op)
 {
-        if (op.jobs.empty() || (t.api == 1 && !t.fifo.empty())) {
+        if ((op.jobs.empty() && !t.held) || (t.api == 1 && !t.fifo.empty())) {
                 ctr(c, CT_DEGRADED_OPS);
                 return;
         }
         t.api = 0;
-        const JobSpec &spec = op.jobs[0];
         IMB_MGR *m = t.mgr.m;
-        IMB_JOB *slot = L_get_next_job(m);
-        check_errno(c, t, "get_next_job", k_ok);
-        int idx = slot_index(t, slot);
-        if (c.plan->oracles & OR_FIFO) {
-                if (idx < 0) {
-                        violate(c, "fifo.badslot", "get_next_job returned a pointer outside the manager's ring");
-                        return;
+        InFlight *f = nullptr;
+        int idx;
+        if (t.held) {
+                // the slot was taken and filled by an earlier GET_NEXT op; other calls may have happened in between
+                f = t.held;
+                t.held = nullptr;
+                idx = slot_index(t, f->slot);
+        } else {
+                IMB_JOB *slot = L_get_next_job(m);
+                check_errno(c, t, "get_next_job", k_ok);
+                idx = slot_index(t, slot);
+                if (c.plan->oracles & OR_FIFO) {
+                        if (idx < 0) {
+                                violate(c, "fifo.badslot", "get_next_job returned a pointer outside the manager's ring");
+                                return;
+                        }
+                        if (slot_outstanding(t, slot)) {
+                                violate(c, "fifo.slot_reused", "get_next_job offered a slot that is still awaiting return");
+                                return;
+                        }
                 }
-                if (slot_outstanding(t, slot)) {
-                        violate(c, "fifo.slot_reused", "get_next_job offered a slot that is still awaiting return");
-                        return;
-                }
+                note_ring(c, t, idx);
+                f = prepare_job(c, t, op.jobs[0], slot, false);
         }
-        note_ring(c, t, idx);
+        const JobSpec &spec = f->mj.spec;
         bool nocheck = op.nocheck && !spec.viol;
-        InFlight *f = prepare_job(c, t, spec, slot, false);
         ctr(c, CT_JOBS_SUBMITTED);
         t.fifo.push_back(f);
         if (t.fifo.size() > c.res->ctr[CT_MAX_INFLIGHT])
@@ -898,21 +922,32 @@ op_queue_size(Ctx &c, Task &t)
 }
 
 void
-op_get_next(Ctx &c, Task &t)
+op_get_next(Ctx &c, Task &t, const Op &op)
 {
-        if (t.api == 1 && !t.fifo.empty()) {
+        if ((t.api == 1 && !t.fifo.empty()) || t.held) {
                 ctr(c, CT_DEGRADED_OPS);
                 return;
         }
         IMB_JOB *s1 = L_get_next_job(t.mgr.m);
         check_errno(c, t, "get_next_job", k_ok);
         IMB_JOB *s2 = L_get_next_job(t.mgr.m);
-        evlog(c, t, 0x474e, (uint64_t) slot_index(t, s1), 0, "get_next_job (abandoned) slot %d", slot_index(t, s1));
+        const bool hold = !op.jobs.empty();
+        evlog(c, t, 0x474e, (uint64_t) slot_index(t, s1), hold, "get_next_job (%s) slot %d", hold ? "filled, submit comes later" : "abandoned",
+              slot_index(t, s1));
         if (c.plan->oracles & OR_FIFO) {
                 if (s1 != s2)
                         violate(c, "fifo.next_unstable", "two get_next_job calls without submit returned different slots");
+                if (slot_index(t, s1) < 0) {
+                        violate(c, "fifo.badslot", "get_next_job returned a pointer outside the manager's ring");
+                        return;
+                }
                 if (slot_outstanding(t, s1))
                         violate(c, "fifo.slot_reused", "get_next_job offered a slot that is still awaiting return");
+        }
+        if (hold) {
+                t.api = 0;
+                note_ring(c, t, slot_index(t, s1));
+                t.held = prepare_job(c, t, op.jobs[0], s1, false);
         }
 }
 
@@ -922,7 +957,7 @@ op_burst(Ctx &c, Task &t, const Op &op)
         uint32_t n = (uint32_t) op.jobs.size();
         if (n > IMB_MAX_BURST_SIZE)
                 n = IMB_MAX_BURST_SIZE;
-        if (t.api == 0 && !t.fifo.empty()) {
+        if ((t.api == 0 && !t.fifo.empty()) || t.held) {
                 ctr(c, CT_DEGRADED_OPS);
                 return;
         }
@@ -1208,6 +1243,7 @@ op_misuse(Ctx &c, Task &t, int kind)
                 violate(c, "fifo.misuse_changed_queue", std::string(what) + " changed the queue");
 }
 
+#include "ops_scrub.inc"
 #include "ops_ext.inc"
 #include "ops_keyprep.inc"
 
@@ -1236,6 +1272,8 @@ run_plan(const Plan &p, const RunOpts &o)
         res.task_hash.resize(p.task_cfg.size());
         g_ctx = &c;
         g_cc_violation = cc_violation;
+        g_callctx.scrub = (p.oracles & OR_SCRUB) != 0;
+        g_needles.clear();
         g_aux_live.clear();
         uint64_t calls0 = g_calls_total;
 
@@ -1289,7 +1327,7 @@ run_plan(const Plan &p, const RunOpts &o)
                         case OP_FLUSH: op_flush(c, t); break;
                         case OP_FLUSH_ALL: op_flush_all(c, t); break;
                         case OP_QUEUE_SIZE: op_queue_size(c, t); break;
-                        case OP_GET_NEXT: op_get_next(c, t); break;
+                        case OP_GET_NEXT: op_get_next(c, t, op); break;
                         case OP_BURST: op_burst(c, t, op); break;
                         case OP_FLUSH_BURST: op_flush_burst(c, t, (uint32_t) op.a); break;
                         case OP_REINIT: op_reinit(c, t, op.a); break;
@@ -1302,6 +1340,9 @@ run_plan(const Plan &p, const RunOpts &o)
                         case OP_KEYPREP: op_keyprep(c, t, op); break;
                         default: ctr(c, CT_DEGRADED_OPS); break;
                         }
+                        if ((p.oracles & OR_SCRUB) && t.fifo.empty() && op.kind != OP_KEYPREP && op.kind != OP_QUEUE_SIZE &&
+                            op.kind != OP_GET_NEXT && op.kind != OP_MISUSE && op.kind != OP_MARK)
+                                residue_scan(c, t, g_callctx.name, true);
                         if (res.viols.size() >= 8)
                                 break;
                 }
@@ -1354,6 +1395,7 @@ run_plan(const Plan &p, const RunOpts &o)
         res.ctr[CT_CALLS] = g_calls_total - calls0;
         g_ctx = nullptr;
         g_cc_violation = nullptr;
+        g_callctx.scrub = false;
         g_jmp_armed = 0;
         return res;
 }
